@@ -13,6 +13,7 @@ import (
 	"verif/internal/gen"
 	"verif/internal/wire"
 	"verif/internal/xport"
+	"verif/internal/zflate"
 )
 
 func init() {
@@ -29,7 +30,7 @@ func init() {
 			return 20000
 		},
 		Run:      runC06,
-		Required: []string{"within_limit_read_in_full", "over_limit_refused", "close_1009_seen", "alloc_probes"},
+		Required: []string{"within_limit_read_in_full", "over_limit_refused", "close_1009_seen", "alloc_probes", "compressed_targets"},
 		Assumptions: []string{
 			"the limit is counted in payload bytes on the wire (compressed size for compressed messages); the <=L delivered-bytes bound is judged for uncompressed messages only",
 			"allocation is measured with runtime.MemStats.TotalAlloc in a worker that runs one case at a time",
@@ -60,6 +61,10 @@ type c06Case struct {
 
 func runC06(ctx *core.Ctx, out *core.Out) {
 	r := ctx.R
+	if ctx.Idx%7 == 3 {
+		c06Compressed(ctx, out)
+		return
+	}
 	if ctx.Idx%50 == 0 {
 		allocProbe(ctx, out, gen.For(ctx.Seed, "C06/alloc", ctx.Idx))
 	}
@@ -369,4 +374,106 @@ func allocProbe(ctx *core.Ctx, out *core.Out, r *gen.R) {
 			}
 		}
 	}
+}
+
+// c06Compressed: the limit counts payload bytes on the wire. A compressed
+// message whose wire payload is <= L must be readable in full even when it
+// inflates to far more than L; one whose wire payload exceeds L must be refused.
+func c06Compressed(ctx *core.Ctx, out *core.Out) {
+	r := ctx.R
+	server := r.Bool()
+	L := int64([]int{20, 64, 125, 126, 300, 1000}[r.Intn(6)])
+	n := r.Range(0, int(L)*30)
+	class := []int{gen.PZeros, gen.PText, gen.PRandom, gen.PJSONish}[r.Intn(4)]
+	data := r.Payload(class, n)
+	z, _ := zflate.Message(data, r, zflate.Options{MidFlush: r.Chance(1, 4)})
+	if got, err := wire.Inflate(z); err != nil || !bytes.Equal(got, data) {
+		out.Count("encoder_rejected", 1)
+		return
+	}
+	sizes := r.Splits(len(z))
+	if len(sizes) == 0 {
+		sizes = []int{len(z)}
+	}
+	var frames []wire.Frame
+	mk := func(op int, fin, rsv1 bool, p []byte) wire.Frame {
+		f := wire.Frame{Op: op, Fin: fin, Rsv1: rsv1, Masked: server, Payload: p}
+		if server {
+			f.Key = maskKey(r)
+		}
+		return f
+	}
+	// an earlier, within-limit plain message, sometimes abandoned
+	pre := r.Payload(gen.PCounter, r.Range(0, int(L)))
+	frames = append(frames, mk(2, true, false, pre))
+	off := 0
+	for i, k := range sizes {
+		op := 0
+		if i == 0 {
+			op = 1
+		}
+		frames = append(frames, mk(op, i == len(sizes)-1, i == 0, z[off:off+k]))
+		off += k
+	}
+	follow := []byte("follower")
+	if int64(len(follow)) > L {
+		follow = follow[:L]
+	}
+	frames = append(frames, mk(2, true, false, follow))
+	cs := map[string]interface{}{"limit": L, "plain_size": len(data), "wire_size": len(z), "frags": sizes, "reader_is_server": server, "payload_class": class}
+	out.Eval(core.J(cs), true)
+	out.Count("compressed_targets", 1)
+	fail := func(sig, what string) {
+		out.Violate("C06:"+sig, what, map[string]interface{}{"case": cs, "frames": framesDesc(frames, 20)})
+	}
+	nc := xport.New(xport.Rechunk(wire.Encode(frames), r.Intn(xport.NChunkStyles), r))
+	c := ws.VerifNewConn(nc, server, r.BufSize(), 256, nil, nil, true)
+	c.SetReadLimit(L)
+	if r.Bool() {
+		if _, p, err := c.ReadMessage(); err != nil || !bytes.Equal(p, pre) {
+			fail("within-limit-message-refused", fmt.Sprintf("plain message of %d bytes <= L=%d: %v", len(pre), L, err))
+			return
+		}
+	} else if _, _, err := c.NextReader(); err != nil {
+		fail("within-limit-message-refused", fmt.Sprintf("plain message of %d bytes <= L=%d could not be opened: %v", len(pre), L, err))
+		return
+	}
+	_, p, err := c.ReadMessage()
+	if int64(len(z)) <= L {
+		if err != nil || !bytes.Equal(p, data) {
+			fail("within-limit-compressed-message-refused", fmt.Sprintf("compressed message with %d payload bytes on the wire (<= L=%d, %d bytes inflated): read %d bytes, err %v", len(z), L, len(data), len(p), err))
+			return
+		}
+		out.Count("within_limit_read_in_full", 1)
+		if _, p, err := c.ReadMessage(); err != nil || !bytes.Equal(p, follow) {
+			fail("within-limit-message-refused", fmt.Sprintf("follower after a compressed message: %v", err))
+			return
+		}
+		return
+	}
+	if err == nil {
+		fail("over-limit-message-read-in-full", fmt.Sprintf("compressed message with %d payload bytes on the wire > L=%d was read to its end", len(z), L))
+		return
+	}
+	if !errors.Is(err, ws.ErrReadLimit) {
+		fail("over-limit-wrong-error", fmt.Sprintf("over-limit compressed message failed with %v, expected ErrReadLimit", err))
+		return
+	}
+	out.Count("over_limit_refused", 1)
+	wf, _, _ := wire.Decode(nc.Written())
+	closes := 0
+	for _, f := range wf {
+		if f.Op == 8 {
+			closes++
+			if code, _, _ := wire.CloseBody(f.Payload); code != 1009 {
+				fail("close-status", fmt.Sprintf("close sent with status %d, expected 1009", code))
+				return
+			}
+		}
+	}
+	if closes != 1 {
+		fail("close-1009-missing", fmt.Sprintf("%d close frames after a breach by a compressed message", closes))
+		return
+	}
+	out.Count("close_1009_seen", 1)
 }
